@@ -148,7 +148,7 @@ def prop_class(name):
     return parts[1] if len(parts) == 3 else ""
 
 
-def interpret(cbmc_items):
+def interpret(cbmc_items, expected_panics=()):
     """Apply kani-driver's post-processing to the CBMC json-ui items."""
     res = None
     stats = {}
@@ -189,6 +189,7 @@ def interpret(cbmc_items):
         else:
             props.append((name, cls, p))
     failed, covers, unwinding_failed, unsupported, unreachable = [], [], [], [], 0
+    expected = []
     harness_asserts = 0
     harness_unreachable = []
     n_checks = 0
@@ -219,7 +220,10 @@ def interpret(cbmc_items):
         if st == "FAILURE":
             rec = {"property": name, "class": cls, "desc": desc[:300],
                    "file": loc.get("file"), "line": loc.get("line"), "function": loc.get("function")}
-            if cls == "unwind" or "unwinding assertion" in desc:
+            key = "%s %s:%s %s" % (desc, loc.get("file"), loc.get("line"), loc.get("function"))
+            if any(re.search(rx, key) for rx in expected_panics):
+                expected.append(rec)
+            elif cls == "unwind" or "unwinding assertion" in desc:
                 unwinding_failed.append(rec)
             elif cls == "unsupported_construct" or "is not currently supported by Kani" in desc:
                 unsupported.append(rec)
@@ -227,7 +231,7 @@ def interpret(cbmc_items):
                 failed.append(rec)
     out = {"stats": stats, "checks": n_checks, "unreachable_checks": unreachable,
            "harness_asserts": harness_asserts, "harness_asserts_unreachable": harness_unreachable,
-           "covers": covers, "failed": failed, "unwinding_failed": unwinding_failed,
+           "covers": covers, "failed": failed, "expected_panics_hit": expected, "unwinding_failed": unwinding_failed,
            "unsupported": unsupported}
     if failed:
         out["verdict"] = "violated"
@@ -265,10 +269,10 @@ def parse_json_stream(path):
         return items
 
 
-def run_harness(h, workdir, timeout=600, mem_gb=20, unwindset=(), unwind=None, extra_cbmc=()):
+def run_harness(h, workdir, timeout=600, mem_gb=20, unwindset=(), unwind=None, extra_cbmc=(), expected_panics=()):
     """unwindset: list of (regex on loop id, bound)."""
     t0 = time.time()
-    rec = {"harness": h["pretty_name"], "unwind": unwind if unwind is not None else h["attributes"].get("unwind_value"),
+    rec = {"harness_pretty": h["pretty_name"], "unwind": unwind if unwind is not None else h["attributes"].get("unwind_value"),
            "stubs": [s.get("original", s) if isinstance(s, dict) else s for s in h["attributes"].get("stubs", [])]}
     try:
         goto = prepare(h, workdir)
@@ -303,7 +307,7 @@ def run_harness(h, workdir, timeout=600, mem_gb=20, unwindset=(), unwind=None, e
     except Exception:
         pass
     items = parse_json_stream(outp)
-    r = interpret(items)
+    r = interpret(items, expected_panics)
     rec.update(r)
     rec["cbmc_rc"] = rc
     rec["cbmc_wall_s"] = round(wall, 1)
